@@ -263,6 +263,13 @@ func aolRules(p *Prog, r *Report, clause string, want func(tag string) bool) *ao
 			fresh := setTopic.val != nil && setTopic.val.Op == "lit" && setTopic.val.Field("TotalRecords") == nil && setTopic.val.Field("TotalWriters") == nil
 			em("counter", fresh, kp("ORIGIN", hn+"#fresh-topic-counters-zero"), "a new topic starts with zero counters", p.Pos(setTopic.cs.Instr.Pos()),
 				"Topic literal sets no counter field", "new topic value sets a counter: "+setTopic.val.String())
+			// stored content: the description stored is the message's own (the validated value, untransformed)
+			if setTopic.val != nil && setTopic.val.Op == "lit" {
+				d := setTopic.val.Field("Description")
+				f, okD := msgField(d)
+				em("content", okD && f == "Description", kp("ORIGIN", hn+"#topic.Description=msg.Description"), "what is stored is what was validated: the topic's description is the message field itself", p.Pos(setTopic.cs.Instr.Pos()),
+					"msg.Description", fmt.Sprintf("topic.Description = %v: a value transformed after stateless validation is no longer bound by the validated limits", d))
+			}
 			// owner key and counter
 			okf := keyFields(setOwner.key)
 			sameOwner := okf != nil && okf["OwnerAddress"] != nil && okf["OwnerAddress"].Eq(tkf["OwnerAddress"])
@@ -303,6 +310,14 @@ func aolRules(p *Prog, r *Report, clause string, want func(tag string) bool) *ao
 				wf, okW := bech32Field(wkf["WriterAddress"])
 				em("auth", okW, kp("ORIGIN", hn+"#writer-component-from-message"), "writer component is parsed from the message", p.Pos(wm.cs.Instr.Pos()),
 					"msg."+wf, "writer component: "+fmt.Sprint(wkf["WriterAddress"]))
+			}
+			if h.kind == "add-writer" && wm.val != nil && wm.val.Op == "lit" {
+				for _, fld := range []string{"Moniker", "Description"} {
+					v := wm.val.Field(fld)
+					f, okF := msgField(v)
+					em("content", okF && f == fld, kp("ORIGIN", hn+"#writer."+fld+"=msg."+fld), "what is stored is what was validated: the writer's "+strings.ToLower(fld)+" is the message field itself", p.Pos(wm.cs.Instr.Pos()),
+						"msg."+fld, fmt.Sprintf("writer.%s = %v: a value transformed after stateless validation is no longer bound by the validated limits", fld, v))
+				}
 			}
 			if h.kind == "add-writer" {
 				w, ok := m.hasGuard(h, wm.cs.Instr, "Topic", tk, true)
